@@ -44,6 +44,26 @@ def _gen_plan(seed, tier):
             ops.append({'op': 'step', 'n': r6.randint(1, 4)})
             plan['ops'] = ops
             return plan
+    r7 = _sub_rng5(seed, 'plan.c02.evicted')
+    if r7.random() < 0.06:
+        # every initial candidate is thrown out of the box by the constraints (default tight=None): the first iteration evaluates
+        # nothing, the solver's counters stay at zero -- and then the ranges are changed.  Candidates made later that the
+        # constraint leaves alone fall inside the old box and outside the new one
+        from .. import gen as _gen
+        th = r7.choice([0.4, 0.5, 0.55]); cut = round(th + r7.choice([0.05, 0.1, 0.2]), 2)
+        j = r7.choice([0, 0, 1])
+        blo = [0.0, 0.0]; blo[j] = cut if j == 0 else r7.choice([0.3, 0.5])
+        ops = [{'op': 'set', 'what': 'init', 'arg': {'lo': [round(th + 0.05, 2), 0.0], 'hi': [1.0, 1.0]}},
+               {'op': 'set', 'what': 'bounds', 'arg': {'lo': [0.0, 0.0], 'hi': [1.0, 1.0], 'tight': None}},
+               {'op': 'set', 'what': 'constraint', 'arg': {'family': 'push_if', 'form': r7.choice(['pure', 'inplace']),
+                                                           'params': {'i': 0, 't': th, 'to': 6.0}}},
+               {'op': 'set', 'what': 'de', 'arg': {'strategy': r7.choice(['Rand1Bin', 'Best1Exp', 'Rand1Exp']), 'CR': 0.9, 'F': 0.8}},
+               {'op': 'step', 'n': 1},
+               {'op': 'set', 'what': 'bounds', 'arg': {'lo': blo, 'hi': [1.0, 1.0], 'tight': None}},
+               {'op': 'step', 'n': r7.randint(5, 25)}]
+        return {'property': ID, 'seed': seed, 'tier': tier, 'solver': r7.choice(['DE', 'DE', 'DE2']), 'dim': 2,
+                'lib_seed': r7.randrange(1 << 30), 'npop': r7.choice([8, 12]), 'cost': _gen.gen_cost(r7, 2, ['quad', 'rosen']),
+                'ops': ops, 'faults': [], 'evicted_start': True}
     plan = solverplan.gen_solver_plan(seed, tier, ID, KNOBS)
     # a hostile constraint makes mystic's and_(constraints, bounds) loop up to 100x per cost call: keep
     # run-to-default-limits Solves out of those plans (cost, not a hang) by bounding the generations
